@@ -137,7 +137,7 @@ def rule_traced_types(ctx: Ctx, repo: Repo, rule: str = "R-C01.3", receiver: boo
     fi = repo.fn(ST, "FunctionDefinition.from_callable_and_traced_types")
     ctx.functions.add(fi.fq)
     ps = fi.positional_params()
-    for rt, yt in ((S("T:ret"), S("T:yld")), (K(None), K(None)), (S("T:ret"), K(None))):
+    for rt, yt in ((S("T:ret"), S("T:yld")), (K(None), K(None)), (S("T:ret"), K(None)), (S("T:Registry", truth=False), S("T:EmptyEnum", truth=False))):  # the last: falsy class objects
         upd: Dict[str, Any] = {}
         made: List[Any] = []
         def hook(call, fname, fval, a, kw, st, _u=upd, _m=made):
@@ -168,7 +168,10 @@ def rule_traced_types(ctx: Ctx, repo: Repo, rule: str = "R-C01.3", receiver: boo
         ctx.check(ok, rule, fi.fq, "every traced argument type (after TypedDict replacement) reaches update_signature_args together with the function's own signature and receiver flag",
                   construct=f"{lab}: {a_}")
         r_ = upd.get("ret")
-        ok = r_ is not None and r_[0] == S("sig1") and r_[1] == (K(None) if rt == K(None) else R("replaced", of=rt)) and r_[2] == (K(None) if yt == K(None) else R("replaced", of=yt)) and r_[3] == S("strategy")
+        # a plain class object (the falsy ones here) holds no TypedDict: handing it on as it is equals handing on its replacement
+        plain = lambda t: isinstance(t, S) and t.truth is False  # noqa: E731
+        okv = lambda got, t: got == (K(None) if t == K(None) else R("replaced", of=t)) or (plain(t) and got == t)  # noqa: E731
+        ok = r_ is not None and r_[0] == S("sig1") and okv(r_[1], rt) and okv(r_[2], yt) and r_[3] == S("strategy")
         ctx.check(ok, rule, fi.fq, "the traced return / yield types reach update_signature_return on the signature whose arguments were updated", construct=f"{lab}: {r_}")
         ok = len(made) == 1
         if ok:
@@ -178,7 +181,8 @@ def rule_traced_types(ctx: Ctx, repo: Repo, rule: str = "R-C01.3", receiver: boo
             bound.update(kw)
             stubs = bound.get("typed_dict_class_stubs")
             n_want = 3 + (rt != K(None)) + (yt != K(None))
-            ok = bound.get("sig") == S("sig2") and isinstance(stubs, R) and stubs.kind == "list" and len(stubs.fields["items"]) == n_want and \
+            n_min = n_want - (r_ is not None and plain(rt) and r_[1] == rt) - (r_ is not None and plain(yt) and r_[2] == yt)
+            ok = bound.get("sig") == S("sig2") and isinstance(stubs, R) and stubs.kind == "list" and n_min <= len(stubs.fields["items"]) <= n_want and \
                 bound.get("module") == K("pkg.mod") and bound.get("qualname") == K("C.m") and bound.get("kind") == S("kind")
         ctx.check(ok, rule, fi.fq, "the definition carries the fully updated signature and every generated TypedDict class stub (arguments, return, yield)",
                   construct=f"{lab}: {str(made)[:200]}")
